@@ -9,6 +9,7 @@ R05e validSegmentCount = factor * ceil(distance / longest); compound = max over 
 import re
 from engine import facts, paths, lin
 from engine.facts import AnalysisBroken, src
+from engine.shape import key, args
 
 UNITS = [src('base', 'src', 'DiscreteMotionValidator.cpp'), src('base', 'spaces', 'src', 'DubinsStateSpace.cpp'),
          src('base', 'spaces', 'src', 'ReedsSheppStateSpace.cpp'), src('base', 'src', 'SpaceInformation.cpp'),
@@ -870,6 +871,97 @@ def r05e(rep, F):
     rep.add('R05e', fn.name, 'max-over-components', r[0], fn.loc, r[1])
 
 
+def _param_types(csig):
+    """parameter type strings of a clang signature 'ret (a, b, c) cv'"""
+    i = csig.find('(')
+    if i < 0:
+        return []
+    depth, cur, out = 0, '', []
+    for ch in csig[i + 1:]:
+        if ch in '(<[':
+            depth += 1
+        elif ch in ')>]':
+            if depth == 0:
+                break
+            depth -= 1
+        if ch == ',' and depth == 0:
+            out.append(cur.strip())
+            cur = ''
+        else:
+            cur += ch
+    if cur.strip():
+        out.append(cur.strip())
+    return out
+
+
+class ScratchInit(paths.Client):
+    """auto = frozenset of scratch states (locals from allocState) that have been written on this path"""
+    track = 'none'
+
+    def __init__(self, fn):
+        self.bad = []
+        self.scratch = set()
+        for n in fn.walk():
+            if n['k'] == 'DeclStmt':
+                for d in n.get('decls', []):
+                    if d.get('init') and (fn.strip(d['init']) or {}).get('callee', '').endswith('::allocState'):
+                        self.scratch.add('%s#%d' % (d['name'], d['did']))
+
+    def init(self, fn):
+        return frozenset()
+
+    def on_node(self, fn, node, auto, ctx):
+        if node['k'] == 'DeclStmt':
+            for d in node.get('decls', []):
+                kk = '%s#%d' % (d['name'], d['did'])
+                if kk in self.scratch:
+                    auto = auto - {kk}
+            return auto
+        if not node.get('callee') or not node.get('csig'):
+            return auto
+        a = args(fn, node)
+        pt = _param_types(node['csig'])
+        wrote = set()
+        for i, x in enumerate(a):
+            kk = key(fn, x)
+            if kk not in self.scratch:
+                continue
+            ty = pt[i] if i < len(pt) else ''
+            if node['callee'].endswith('::freeState'):
+                continue
+            if 'const' in ty.split('*')[0]:
+                if kk not in auto:
+                    self.bad.append((kk, node['id'], ctx.path()))
+            else:
+                wrote.add(kk)
+        return auto | wrote
+
+
+def r05f(rep, F, fns):
+    rep.rule('R05f', 'scratch states are written before they are read: a local obtained from allocState() holds no defined value until a call '
+                     'writes it (it is passed for a non-const State* parameter: interpolate(..., out), copyState(out, ...)); on every CFG path '
+                     'a use as a const State* argument (copyState(dst, scratch), isValid(scratch)) comes after such a write.  A validator '
+                     'that copies its scratch state into the caller\'s last-valid state on a path where the interpolation loop never ran '
+                     '(a motion of a single segment) returns garbage as "the last valid state"')
+    n = 0
+    for f in fns:
+        cl = ScratchInit(f)
+        if not cl.scratch:
+            continue
+        n += 1
+        paths.run_function(f, cl, F)
+        ok = not cl.bad
+        rep.add('R05f', label(f) if 'label' in globals() else f.name, 'scratch-written-before-read', ok, f.where(cl.bad[0][1]) if cl.bad else f.loc,
+                'scratch states %s are written on every path before they are read' % sorted(nofp_(k_) for k_ in cl.scratch) if ok else
+                'the scratch state %s is read here on a path that never wrote it (allocState() does not initialise a state)' % nofp_(cl.bad[0][0]),
+                cl.bad[0][2] if cl.bad else None)
+    rep.require_count('R05f', 'validator functions with scratch states', n, 14)
+
+
+def nofp_(s_):
+    return re.sub(r'#\d+', '', s_)
+
+
 def run(rep):
     HI_ND[0] = 400 if getattr(rep, 'tier', 'quick') == 'thorough' else 48      # thorough tier: segment counts up to 400
     F = facts.load_units(UNITS)
@@ -902,4 +994,5 @@ def run(rep):
                 'both overloads interpolate through the same routine with identically initialised cache arguments %s' % (a,)
                 if ok else 'the two overloads interpolate differently (they can disagree on the verdict): %s vs %s' % (a, b))
     r05_states_overload(rep, F)
+    r05f(rep, F, counting + [f for f in F.functions if f.name.startswith('ompl::base::SpaceInformation::') and f.body])
     r05e(rep, F)
